@@ -44,7 +44,7 @@ FLOORS = {'quick': {'agents_rejoining_as_the_same_object': 1609, 'busy_rounds_be
                     'killed_children': 14, 'default_priority_runs': 200, 'big_many_systems_runs': 4, 'big_flush_batches': 4, 'collectors_attached_late': 100, 'late_collector_twin_runs': 100,
                     'reach:Collectors.AgentCollector.collect': 6500, 'reach:Collectors.FileCollector.execute': 4100,
                     'reach:Collectors.FileCollector.write_records': 1665},
-          'thorough': {'agent_steps': 750000, 'file_steps': 299996, 'killed_children': 960}}
+          'thorough': {'agent_steps': 750000, 'file_steps': 299996, 'killed_children': 959}}
 EXHAUSTIVE = {}
 
 OPENS = {}
